@@ -95,6 +95,6 @@ theorem C06_lazy_partial_write_witness :
     (rewriteFilesLazy v fs fps).1 = [("a".toList, "v 1.2.4".toList)] ∧
     (rewriteFilesLazy v fs fps).2 = .error .missingFile ∧
     (rewriteFiles fs fps v).1 = fs := by
-  sorry
+  decide +kernel
 
 end BV
